@@ -95,6 +95,8 @@ LockedTotal(o) == SumFn(o.ent.locked) + o.ent.extraLocked
 LockedOf(o, d) == IF d = o.ent.p.denom THEN LockedTotal(o) ELSE 0
 SupplyOfOk(o) == \A d \in Denoms : o.q.supplyOf[d] = o.supply[d] - LockedOf(o, d)
 StakeSupplyUnchanged(o) == o.q.supplyOfStake = o.q.bankStake
+\* every denomination the bank knows that is not one of the model's (the staking coin, foreign coins, an IBC voucher): reported unchanged
+ForeignSupplyOfOk(o) == "supplyOfAll" \in DOMAIN o.q => \A d \in DOMAIN o.q.supplyOfAll : d \notin Denoms => o.q.supplyOfAll[d] = o.q.bank[d]
 EntSupplyOk(o) ==
   LET e == o.q.entSupply IN
   /\ e.denom = o.ent.p.denom
@@ -207,11 +209,19 @@ NotEntitled(s, m) ==
     [] m.t \in {"BRec", "BBuy"} -> ChExists(s, "bcn", m.id) /\ ChOf(s, "bcn", m.id).owner # m.owner
     [] m.t \in {"STopUp", "SRate", "SCancel", "SClaim"} -> ~HasStream(s, m.receiver, m.sender)
     [] m.t = "UpdParams" -> m.authority # "gov"
+    [] m.t = "GExec" -> m.member \notin GroupMembers
     [] OTHER -> FALSE
 \* within one transaction earlier messages may create the entitlement (register then record): only single-message
 \* transactions and wrappers of one message are judged here; the refinement check covers the rest
-SoleMsg(ev) == IF Len(Flatten(ev.msgs)) = 1 THEN Flatten(ev.msgs) ELSE <<>>
+\* (a group proposal's transaction succeeds whether or not its messages did: judged by UnentitledGroupExec)
+SoleMsg(ev) == IF Len(Flatten(ev.msgs)) = 1 /\ ~\E i \in DOMAIN ev.msgs : ev.msgs[i].t = "GExec" THEN Flatten(ev.msgs) ELSE <<>>
 UnentitledAccepted(s, ev, ok) == ev.a = "DeliverTx" /\ ok /\ SoleMsg(ev) # <<>> /\ NotEntitled(s, SoleMsg(ev)[1])
+\* a group proposal accepted from a non-member, or one whose only message - reported as executed - was not the policy account's to send
+UnentitledGroupExec(s, ev, res) ==
+  /\ ev.a = "DeliverTx" /\ res.ok /\ Len(ev.msgs) = 1 /\ ev.msgs[1].t = "GExec"
+  /\ \/ ev.msgs[1].member \notin GroupMembers
+     \/ /\ Len(ev.msgs[1].msgs) = 1 /\ Len(res.outs) = 1 /\ "executed" \in DOMAIN res.outs[1] /\ res.outs[1].executed
+        /\ NotEntitled(s, ev.msgs[1].msgs[1])
 
 ------------------------------------------------------------------------------
 (* C14 *)
